@@ -10,6 +10,10 @@ import (
 type allocState struct {
 	objs [16]*tak.Position
 	live [16]bool
+	// move lists handed out by AllMoves(nil) earlier in the session, with what they held then: a list belongs to the
+	// caller and must not change when other positions (clones, successors) are asked for their moves later
+	held    [][]tak.Move
+	heldStr []string
 }
 
 func allocOf(s *Session) *allocState {
@@ -24,6 +28,24 @@ func allocOf(s *Session) *allocState {
 func obsStr(p *tak.Position) string {
 	d := p.WinDetails()
 	return fmt.Sprintf("%s over=%d%s hash=%d nmoves=%d", dumpPos(p), b2i(d.Over), colorStr(d.Winner), p.Hash(), len(p.AllMoves(nil)))
+}
+
+// obsHeld: obsStr, and the move list of this observation joins the held ones; every held list is looked at again
+func obsHeld(st *allocState, p *tak.Position) string {
+	d := p.WinDetails()
+	ms := p.AllMoves(nil)
+	out := fmt.Sprintf("%s over=%d%s hash=%d nmoves=%d", dumpPos(p), b2i(d.Over), colorStr(d.Winner), p.Hash(), len(ms))
+	held := "ok"
+	for i, l := range st.held {
+		if fmtMoves(l) != st.heldStr[i] {
+			held = "changed"
+		}
+	}
+	if len(st.held) < 24 {
+		st.held = append(st.held, ms)
+		st.heldStr = append(st.heldStr, fmtMoves(ms))
+	}
+	return out + " held=" + held
 }
 
 func init() {
@@ -115,7 +137,7 @@ func init() {
 		if st.objs[k] == nil || !st.live[k] {
 			return "dead"
 		}
-		return obsStr(st.objs[k])
+		return obsHeld(st, st.objs[k])
 	}
 	opTable["h.obs"] = obs
 	opTable["p.obs"] = obs
